@@ -64,7 +64,7 @@ def harness(c: sym.Ctx, case: Dict[str, Any]) -> None:
     state: Dict[str, Any] = {"samples": [], "seen": set()}
 
     def on_step(run: Any) -> None:
-        sem = getattr(run.lab.receiver, "sem", None)
+        sem = getattr(run.lab, "exec_sem", None)
         if sem is None or not hasattr(sem, "_value"):
             return
         begun = sum(1 for e in run.lab.ev if e[0] == "cb_begin")
@@ -107,6 +107,8 @@ def harness(c: sym.Ctx, case: Dict[str, Any]) -> None:
     c.check(ended == sorted(taken), "every_taken_message_processed", taken=taken, ended=ended, outcomes=per)
     # permit conservation: free permits + live callbacks + (the one slot the runner itself may hold) == A, so a leaked slot shows as
     # free + live < A - 1; checked at every quiescent point of the run and at its end
+    if state["samples"]:
+        c.cover("permit_samples")
     for free, live_now in state["samples"]:
         c.check(free + live_now >= r.A - 1, "no_execution_slot_leaked", free=free, live=live_now, A=r.A, outcomes=per)
         c.check(free + live_now <= r.A, "no_execution_slot_invented", free=free, live=live_now, A=r.A, outcomes=per)
